@@ -211,7 +211,9 @@ func (c *kCtx) transitions(k *kSys, a kAction, before []string, report bool, his
 			case "mine", "mineall":
 				ok = target && edge == "ready->mining"
 			case "stop", "stopall":
-				ok = target && edge == "mining->ready"
+				// documented: plotting -> registered, mining -> ready (the current code performs the first
+				// one in the plotter's step 3, but doing it in the stop call itself is equally documented)
+				ok = target && (edge == "mining->ready" || edge == "plotting->registered")
 			}
 		case "gate":
 			switch a.Name {
